@@ -231,7 +231,11 @@ pub fn plan(property: &str) -> Option<CheckPlan> {
                 "recovery after a server restart is demanded only with >= 3 attempts",
             ],
             real: N_REAL.to_vec(),
-            stubbed: N_STUB.to_vec(),
+            stubbed: {
+                let mut v = N_STUB.to_vec();
+                v.push("server, in the re-registration-observer family and for the impostor outages only: a raw QUIC endpoint with the real TLS configuration that records / refuses registration frames");
+                v
+            },
             items: vec![PlanItem { family: &nsim::reconnect::RECONNECT, quick: 504, thorough: 33_600 }, PlanItem { family: &nsim::rereg::REREG, quick: 200, thorough: 8_000 }],
         }),
         "C13" => Some(CheckPlan {
